@@ -261,11 +261,13 @@ theorem actBegin_strip (e g : Nat) (m : State) :
     | none => exact ⟨rfl, rfl⟩
     | some d =>
       simp only [Option.map_some]
-      refine ⟨?_, rfl⟩
+      have hemp : d.strip.slots.isEmpty = d.slots.isEmpty := by
+        simp [SignalData.strip, List.isEmpty_iff]
+      refine ⟨?_, by rw [hemp]; rfl⟩
       rw [strip_setEmitter, Option.map_some, strip_setSig]
       rfl
 
-theorem next_strip (m : State) (fid idx : Nat) : next m.strip fid idx = next m fid idx := by
+theorem next_strip (m : State) (fid : Nat) (idx : Option Nat) : next m.strip fid idx = next m fid idx := by
   simp only [next]
   have hf : m.strip.frames = m.frames := rfl
   rw [hf]
@@ -276,6 +278,10 @@ theorem next_strip (m : State) (fid idx : Nat) : next m.strip fid idx = next m f
     by_cases hi : f.invalidated = true
     · simp only [hi, if_true]
     · simp only [hi, Bool.false_eq_true, if_false]
+      cases idx with
+      | none => rfl
+      | some idx =>
+      simp only
       rw [strip_data]
       cases m.data f.data.1 f.data.2 with
       | none => rfl
@@ -374,12 +380,12 @@ theorem connect_strip (e g l s : Nat) (m : State) :
 /-! ### the model without node numbers -/
 
 /-- the model in which `connect` stores node 0 and the allocation counter stays 0 -/
-def machine0 : Machine State Nat Nat :=
+def machine0 : Machine State Nat (Option Nat) :=
   { machine with connect := fun e g l s m => (connect e g l s m).strip }
 
 /-- real model against erased model: the erased state is the erasure of the real one (and the
     real one is a reachable one: related to some specification state) -/
-def SimG (m m0 : State) (K : Stack Nat Nat Nat Nat) : Prop :=
+def SimG (m m0 : State) (K : Stack Nat (Option Nat) Nat (Option Nat)) : Prop :=
   m0 = m.strip ∧ (∀ k ∈ K, k.1 = k.2) ∧ ∃ (s : Spec.SState) (Ks : MStack), Sim m s Ks ∧ Ks.map (·.1) = K.map (·.1)
 
 theorem ghostOK : SimOK machine machine0 SimG where
